@@ -219,6 +219,8 @@ CheckRead(e, k) ==
                         /\ ob.demux1 = (IF M.ms1 = <<>> THEN <<>> ELSE LastName(M.ms1))
                         /\ cfg.demux = "combi" => ob.demux2 = (IF M.ms2 = <<>> THEN <<>> ELSE LastName(M.ms2)))
              /\ RepK(e.id, "Occurrences", k, ob.occ = (IF M.dest = "none" THEN 0 ELSE 1) /\ ob.occ2 = (IF cfg.paired THEN ob.occ ELSE 0))
+             \* (independent of the model: no read appears twice in the outputs, mates appear together)
+             /\ RepK(e.id, "Occ.AtMostOnce", k, ob.occ <= 1 /\ ob.occ2 = (IF cfg.paired THEN ob.occ ELSE 0))
              /\ RepK(e.id, "PairSync", k, ~cfg.paired \/ (ob.dest2 = ob.dest /\ ob.pos2 = ob.pos1))
              /\ Has(e, "info") => InfoOK(e, k, cfg, rd, M)
              /\ Has(e, "aux") => AuxOK(e, k, cfg, rd, M)
